@@ -370,6 +370,8 @@ def c06_program_case(res, rng, i):
     with warnings.catch_warnings():
         warnings.simplefilter("ignore")
         y0 = programs.interpret(prog, x, onp, RAW_USER)
+        if not programs.well_scaled(prog, x, RAW_USER):
+            return _nj(res, "ill_scaled")
         f = lambda t: programs.interpret(prog, t, anp, U)
         h0 = vhash(x)
         try:
